@@ -228,6 +228,9 @@ func c14Commands() []string {
 		// version is refused whatever interface version it claims (0.0 is reserved for legacy TEXT without the token)
 		`{"username":"u","hostname":"h","ifVer":6}`, `{"username":"u","hostname":"h","ifVer":1,"sshClientVersion":""}`, `{"username":"u","hostname":"h","ifVer":6,"hardKey":true,"exts":{"k":"v"}}`,
 		`{"username":"u","hostname":"h","ifVer":6,"sshClientVersion":"8.1"}`, `{"username":"u","hostname":"h","ifVer":-1}`, `{"username":"u","hostname":"h","ifVer":0}`,
+		// declared users that equal a login name of the sweep (alice, ünï) up to letter case / Unicode case folding: copied
+		// verbatim, in their own spelling
+		full("Alice", "host.com", "8.1"), full("ALICE", "Host.Com", "8.1"), full("ÜNÏ", "h", "8.1"), "req=aLiCe@host.com SSHClientVersion=8.1", "req=Ünï@H",
 		" " + embedded, "\n" + embedded, "\t\r\n " + embedded, embedded + " \n", " " + embedded + " ", embedded,
 		"IFVer=6 SSHClientVersion=8.1 req=user@host.com HardKey=true", "IFVer=6 req=user@host.com", "req=user@host.com", "SSHClientVersion=8.1 req=user@host.com",
 		"SSHClientVersion=x req=user@host.com", "SSHClientVersion=8 req=u@h", "SSHClientVersion=70000.1 req=u@h", "SSHClientVersion= req=u@h", "IFVer=6 SSHClientVersion=8.1",
@@ -238,7 +241,7 @@ func c14Commands() []string {
 }
 
 func checkC14(c *ev.Ctx) {
-	c.Rule("SSH_ORIGINAL_COMMAND from a 75-text catalogue (JSON objects with good/missing/mistyped fields and 8 version spellings, other JSON values, objects surrounded by JSON whitespace with legacy-looking tokens inside a string value, legacy k=v texts, empty, raw bytes) x LOGNAME{5} x SSH_CONNECTION{11} x argument vectors: part A (serial, CSPRNG identity checked) all commands x lognames x connections x 8 vectors; every ordered pair of catalogue commands back to back on one pinned goroutine (twice); 300 distinct declared versions / users / hosts / addresses in one process, each revisited twice; part B all vectors of 0..4 arguments over a 9-token alphabet (incl. space-containing arguments that end in a policy token) (thorough: 0..8 over 4 tokens as well) x reduced command/logname/connection sets; each compared with a reference model written from the statement. non-trivial = accepted input; distinct by input")
+	c.Rule("SSH_ORIGINAL_COMMAND from an 80-text catalogue (JSON objects with good/missing/mistyped fields and 8 version spellings, other JSON values, objects surrounded by JSON whitespace with legacy-looking tokens inside a string value, legacy k=v texts, empty, raw bytes) x LOGNAME{5} x SSH_CONNECTION{11} x argument vectors: part A (serial, CSPRNG identity checked) all commands x lognames x connections x 8 vectors; every ordered pair of catalogue commands back to back on one pinned goroutine (twice); 300 distinct declared versions / users / hosts / addresses in one process, each revisited twice; part B all vectors of 0..4 arguments over a 9-token alphabet (incl. space-containing arguments that end in a policy token) (thorough: 0..8 over 4 tokens as well) x reduced command/logname/connection sets; each compared with a reference model written from the statement. non-trivial = accepted input; distinct by input")
 	c.Assume("transid bytes come through the csprng seam (crypto/rand import of csr/transid redirected to a recording deterministic stream)")
 	if c.ReplayCase != nil {
 		var k c14Case
